@@ -13,6 +13,18 @@ WH_NOTE = ("trusted: Coq 8.16.1 kernel (no axioms: Print Assumptions is 'Closed 
            "execution; Vec/VecDeque/hashbrown/serde modelled by contract; archetype-table order is an oracle input")
 
 CLAIMED = {
+    "C09": dict(engine="world-histories",
+                text="Proved for every consumer obeying rayon's contract (associative reducer with the empty fold as unit, driving "
+                     "distributes over concatenation) and every splitting of the archetype sequence: the custom "
+                     "ResultsConsumer/ResultsFolder drives exactly the sequential item sequence, hence (with C03) exactly the "
+                     "comprehension over the map, each entity once; RepeatNone yields exactly count Nones under any index "
+                     "splitting; the column zip hands each row index to exactly one item. par_query counterparts of the query "
+                     "family (collect, and for_each that overwrites through mutable views) run inside the world histories on "
+                     "pools of 1/2/4/16 threads; rows compared with the sequential semantics, addresses of mutable items "
+                     "pairwise distinct. PARTIAL: rayon's bridge/producers and hashbrown's RawParIter by contract; no real "
+                     "interleavings in the model.",
+                technique="Rocq proof of the consumer/folder algebra under arbitrary split trees (rayon by contract) + par vs seq differential execution on several pool sizes",
+                ref="DESIGN.md §7 C09"),
     "C11": dict(engine="world-histories",
                 text="Proved for ALL serialized content (identifier bytes, declared lengths, rows, allocator length, free list, "
                      "resources): de_content returns an error or a world satisfying Inv, from which no history gets stuck; the "
@@ -167,7 +179,7 @@ def main():
         })
     engines = [
         {"name": "world-histories", "path": "lib/wh.py",
-         "serves_properties": ["C01", "C02", "C03", "C04", "C06", "C10", "C11", "C13", "C15", "C16"],
+         "serves_properties": ["C01", "C02", "C03", "C04", "C06", "C09", "C10", "C11", "C13", "C15", "C16"],
          "kind_free_text": "random+corpus operation histories run on the real library (harness/src/bin/wh.rs) and on the "
                            "extracted Gallina model (extract/wh_driver.ml), compared step by step; spec-side oracles "
                            "(reference map, structural invariant, ledger, equality, independence) on the implementation trace"},
